@@ -2,6 +2,7 @@ package main
 
 import (
 	"fmt"
+	"strings"
 	"time"
 
 	"verif/harness/internal/core"
@@ -41,6 +42,17 @@ func (hc *histCase) addStmt(s *proto.Stmt, st model.Style) {
 		return
 	}
 	hc.add(proto.Op{K: "stmt", Stmt: s}, opMeta{kind: "stmt", stmt: s})
+}
+
+// addRefused adds a statement that has to be refused and to leave nothing
+// behind - in particular nothing that shows when a later statement succeeds.
+func (hc *histCase) addRefused(s *proto.Stmt, st model.Style) {
+	if hc.textMode && model.StmtTextOK(s) {
+		q := model.RenderStmt(s, st)
+		hc.add(proto.Op{K: "sql", SQL: proto.Text(q)}, opMeta{kind: "refused", stmt: s, text: q})
+		return
+	}
+	hc.add(proto.Op{K: "stmt", Stmt: s}, opMeta{kind: "refused", stmt: s})
 }
 
 func (hc *histCase) other(k string) { hc.add(proto.Op{K: k}, opMeta{kind: k}) }
@@ -96,6 +108,25 @@ func buildHistory(c *core.Ctx, prop string, idx int, kind string) *histCase {
 	case "small":
 		n := r.Range(15, 60)
 		for i := 0; i < n; i++ {
+			if r.Chance(1, 10) {
+				// a statement on a table that does not exist (yet): refused -
+				// the name is the one the history's next CREATE TABLE will
+				// use, or one of an existing table in another letter case
+				name := h.NextTableName()
+				if len(h.DB.Tables) > 0 && r.Chance(1, 3) {
+					if tw := strings.ToUpper(h.DB.Tables[r.Intn(len(h.DB.Tables))].Name); h.DB.Table(tw) == nil {
+						name = tw
+					}
+				}
+				switch r.Intn(4) {
+				case 0, 1:
+					hc.addRefused(&proto.Stmt{Kind: "insert", Table: name, Rows: [][]proto.Val{{proto.Int(1), proto.Int(2)}}}, st)
+				case 2:
+					hc.addRefused(&proto.Stmt{Kind: "update", Table: name, Sets: []proto.SetItem{{Col: "g", Val: proto.Int(1)}}}, st)
+				default:
+					hc.addRefused(&proto.Stmt{Kind: "delete", Table: name}, st)
+				}
+			}
 			hc.addStmt(h.Next(), st)
 			if flushMode == 2 || (flushMode == 1 && r.Chance(1, 4)) {
 				hc.other("flush")
@@ -237,7 +268,7 @@ func buildHistory(c *core.Ctx, prop string, idx int, kind string) *histCase {
 func historyCheck(c *core.Ctx, prop string) []core.Floor {
 	c.Level = "exploration"
 	if prop == "C01" {
-		c.Rule = "seeded histories of CREATE TABLE/INSERT/UPDATE/DELETE over 1-4 tables (half as SQL text through Session.ExecQuery, half as direct values), random flush placement and reopen; SELECT * of every table and of the catalog compared with an in-memory model after every statement (small) or every 5 statements (deep/catalog). Distinct = script hash; non-trivial = the history contained a leaf split after a delete on the same table, or a root move."
+		c.Rule = "seeded histories of CREATE TABLE/INSERT/UPDATE/DELETE over 1-4 tables (half as SQL text through Session.ExecQuery, half as direct values), random flush placement and reopen; one statement in ten is preceded by an INSERT / UPDATE / DELETE on a table that does not exist yet (refused; the name is the one the next CREATE TABLE uses); SELECT * of every table and of the catalog compared with an in-memory model after every statement (small) or every 5 statements (deep/catalog). Distinct = script hash; non-trivial = the history contained a leaf split after a delete on the same table, or a root move."
 	} else {
 		c.Rule = "same histories as C01; every page reachable from every table root dumped at quiescent points (between statements, timer off) and checked for the shape invariants, with the engine's own point lookup and reverse scan run on every stored key; about one statement in twelve is followed by dropping every in-memory structure and running recovery, so that many of the walked trees were rebuilt by log replay; one history in seventeen runs with a page cache of 14-28 pages, smaller than its catalog of 10-14 tables, flushing after every statement, so that pages a statement has already looked at (its table's root among them) are pushed out while it scans the catalog. Distinct = script hash; non-trivial = the walk saw a tree with >= 2 levels."
 	}
@@ -302,6 +333,13 @@ func runHistoryCase(c *core.Ctx, prop, drv string, hc *histCase) {
 			break
 		}
 		switch mt.kind {
+		case "refused":
+			if res.Err == "" {
+				c.Inconclusive("not-refused", "a statement on a missing table was accepted (C14's / C18's business): "+describe(mt))
+				violated = true
+				break
+			}
+			c.Count("refused_statements_on_missing_tables", 1)
 		case "stmt":
 			nStmts++
 			c.Count("stmts_"+mt.stmt.Kind, 1)
